@@ -51,6 +51,14 @@ Proof.
   - exists n0, c0. repeat split; auto. econstructor; eauto.
 Qed.
 
+Lemma Sub_prepend w i n c x :
+  w_nodes w i = Some n -> In (CElem c) (n_content n) -> Sub w c x -> Sub w i x.
+Proof.
+  intros Hn Hin HS. induction HS as [|p m y HS IH Hp Hy].
+  - econstructor; [constructor | exact Hn | exact Hin].
+  - econstructor; eauto.
+Qed.
+
 Lemma Sub_nodes_eq w w' a x : w_nodes w' = w_nodes w -> Sub w a x -> Sub w' a x.
 Proof.
   intros E. induction 1 as [|p n c HS IH Hp Hin]; [constructor|].
